@@ -166,15 +166,19 @@ def includerPass : Nat → ANode → List SW → ANode × List SW
 
 def includerIter (a : ANode) : ANode × List SW := includerPass (a.n.store.height + 1) a []
 
-/-- restart of the aggregator: watermarks and DA-included height are reloaded from the image; the marks survive only
+/-- (re)start of the aggregator (`disk = {}`: the first start): watermarks and DA-included height are reloaded from the
+image, each raised to `initialHeight - 1`; the marks survive only
 a clean stop (they are written to the cache files by `SaveCache`) -/
 def restart (c : Cfg) (a : ANode) (disk : Store) (clean : Bool) : Option ANode :=
   match Producer.start c disk with
   | .error _ => none
   | .ok (n, _) =>
-    let di := match n.store.getMeta daIncKey with
+    let di0 := match n.store.getMeta daIncKey with
       | some b => if b.length = 8 then Bytes.unLe b else 0
       | none => 0
+    -- heights below the initial height do not exist and need no inclusion: the value in memory starts at
+    -- initialHeight - 1 (not persisted; the next advance persists initialHeight)
+    let di := if c.initialHeight > 1 ∧ di0 < c.initialHeight - 1 then c.initialHeight - 1 else di0
     some { a with n := n, daInc := di, hMarks := if clean then a.hMarks else [], dMarks := if clean then a.dMarks else [] }
 
 end Submit
